@@ -47,8 +47,44 @@ def _mt(shape, ty, layout=None, space='"L1"'):
     return "memref<" + ", ".join(parts) + ">"
 
 
+def _tsl(spec, shape):
+    """spec: dict(tsl=[[inner tile, middle tile] per dim], rot=k, pad=[...], offset=k) -> #tsl.tsl<...> with up to three tile levels per
+    dimension. All (dim, level) positions are nested into each other (innermost levels fastest, rotated by `rot`), so the layout is one-to-one."""
+    bounds = []
+    for d, n in enumerate(shape):
+        levels, rem = [], n
+        for a in spec["tsl"][d % len(spec["tsl"])]:
+            if a > 1 and rem % a == 0 and rem // a > 1:
+                levels.append(a)
+                rem //= a
+        bounds.append([rem] + levels[::-1])
+    order = [d for d in (spec.get("perm") or []) if d < len(shape)]
+    order += [d for d in range(len(shape)) if d not in order]
+    # fastest first: the innermost tile of every dimension (last dimension of `order` fastest), then per dimension its middle and outer
+    # level directly above each other (so a dimension split into three levels stays affine in its tile index when nothing is padded between)
+    pos = [(d, len(bounds[d]) - 1) for d in reversed(order)]
+    pos += [(d, l) for d in reversed(order) for l in reversed(range(len(bounds[d]) - 1))]
+    k = spec.get("rot", 0) % len(pos)
+    pos = pos[k:] + pos[:k]
+    steps = {}
+    cur = 1
+    npad = 0
+    for j, (d, l) in enumerate(pos):
+        steps[(d, l)] = cur
+        cur = cur * bounds[d][l]
+        if j + 1 < len(pos) and pos[j + 1][0] != d:
+            cur += spec["pad"][npad % len(spec["pad"])]
+            npad += 1
+    dims = ", ".join("[" + ", ".join(str(b) for b in bounds[d]) + "] -> (" + ", ".join(str(steps[(d, l)]) for l in range(len(bounds[d]))) + ")"
+                     for d in range(len(shape)))
+    off = spec.get("offset", 0)
+    return "#tsl.tsl<" + dims + (f", offset: {off}" if off else "") + ">"
+
+
 def _strided(spec, shape):
     """spec: dict(perm=[...], pad=[...], offset=k) -> strided<[...], offset: k> with dims laid out in `perm` order (last = fastest)."""
+    if "tsl" in spec:
+        return _tsl(spec, shape)
     perm = spec["perm"]
     strides = [0] * len(shape)
     cur = 1
@@ -309,6 +345,7 @@ def prop(r):
     # expected element byte streams per operand
     expected = []
     descs = []
+    outside_why = []
     for i, operand in enumerate(sched.operands):
         A, b = affine_matrix(sched.patterns.data[i].data)
         f, elsize, desc = layout_fn(operand.type)
@@ -333,9 +370,15 @@ def prop(r):
             # iteration box and the innermost relevant run must be contiguous up to at least one 8-byte bank word.
             why = _outside_domain(bounds, A, b, f, elsize, n_sp, rel)
             if why:
-                raise Outside(why)
+                # this operand is not compared; the others still are (every operand's pattern is derived on its own)
+                expected.append(None)
+                descs.append(("outside-domain", elsize))
+                outside_why.append(why)
+                continue
         expected.append(SM.elem_bytes(addr, elsize))
         descs.append((desc, elsize))
+    if outside_why and all(e is None for e in expected):
+        raise Outside(outside_why[0])
     sched_text = to_text(sched)[:2500]
     # capture the patterns handed to set_stride_patterns
     captured = {}
@@ -466,9 +509,16 @@ def prop(r):
 # ------------------------------------------------------------------------------------------------ strategies
 
 @st.composite
-def _given(draw, rank):
+def _given(draw, rank, tsl_in_4=1, inner=4):
+    if draw(st.integers(0, 3)) < tsl_in_4:
+        # tiled-strided layout with up to three tile levels per dimension; the innermost tile mostly matches the accelerator's unrolling
+        return dict(tsl=[[draw(st.sampled_from([inner] * 6 + [2, 4, 8, 16])), draw(st.sampled_from([1, 2, 2, 4]))] for _ in range(rank)],
+                    rot=draw(st.sampled_from([0] * 9 + [1, 2, 3])),
+                    pad=[draw(st.sampled_from([0] * 7 + [8]))] + [draw(st.sampled_from([0, 0, 0, 0, 8, 64])) for _ in range(2)],
+                    offset=0, perm=list(range(rank)))  # a TSL offset lives in the operand's pointer (convert-memref-to-arith, C10), not in the streams
     perm = draw(st.permutations(list(range(rank)))) if draw(st.integers(0, 3)) == 0 else list(range(rank))
-    return dict(perm=perm, pad=[draw(st.sampled_from([0, 0, 0, 8, 16, 64])) for _ in range(rank)],
+    # padding behind the fastest dimension breaks the contiguous run the streamers need when that dimension is short: keep it rare
+    return dict(perm=perm, pad=[draw(st.sampled_from([0] * 7 + [8]))] + [draw(st.sampled_from([0, 0, 0, 8, 16, 64])) for _ in range(rank - 1)],
                 offset=draw(st.sampled_from([0, 0, 0, 0, 0, 8, 64])))
 
 
@@ -502,18 +552,26 @@ def recipe(draw, tier):
         r["qmac"] = draw(st.booleans())
         r["bias_1d"] = draw(st.booleans())
         r["b_transposed"] = draw(st.booleans())
-        r["given"] = [draw(_given(2)) for _ in range(4)]
+        # plain strided layouts are almost always refused by the conversion for gemmx (its 8x8 tiles are not contiguous): favour tiled ones
+        r["given"] = [draw(_given(2, 3, 8)) for _ in range(4)]
+        if not r["b_transposed"] and draw(st.integers(0, 3)) != 0:
+            # B is read along K: store it with K fastest (otherwise the access is not contiguous and the case is outside the domain)
+            r["given"][1]["perm"] = [1, 0]
         if kind == "gemm" and r["bias_1d"]:
-            r["given"][2] = draw(_given(1))
+            r["given"][2] = draw(_given(1, 3, 8))
         return r
     r.update(Nn=draw(st.sampled_from([1, 1, 2])), F=draw(st.sampled_from([8, 16])), C=draw(st.sampled_from([8, 16])),
              OY=draw(st.sampled_from([1, 2, 4, 8])), OX=draw(st.sampled_from([8, 16])), FY=draw(st.sampled_from([1, 3])),
              FX=draw(st.sampled_from([1, 3])), S=draw(st.sampled_from([1, 1, 2])))
-    r["given"] = [draw(_given(4)) for _ in range(3)]
+    r["given"] = [draw(_given(4, 3, 8)) for _ in range(3)]
+    if draw(st.integers(0, 3)) != 0:
+        # channels-last input and weights: the reduction over c is the contiguous run
+        r["given"][0]["perm"] = [0, 2, 3, 1]
+        r["given"][1]["perm"] = [0, 2, 3, 1]
     return r
 
 
 SUBS = [
-    Sub("streams", lambda tier: recipe(tier), prop, budget=dict(quick=1200, thorough=20000), floor=dict(quick=60, thorough=1000),
+    Sub("streams", lambda tier: recipe(tier), prop, budget=dict(quick=3000, thorough=30000), floor=dict(quick=150, thorough=1500),
         nontrivial_rule=">= 2 temporal steps and an operand with element size < 8 bytes or a non-default layout"),
 ]
